@@ -1,6 +1,7 @@
 SPECIFICATION FSpec
 CONSTANTS
   MaxLen = 5
+  ReadSize = 5
   Classes = {"idn"}
   MaxPend = 1
   Threads = {"req"}
